@@ -356,7 +356,7 @@ Lemma both_upd : forall s id f, state_ok s ->
   (forall mb, nth_error (st_heap s) id = Some mb -> good mb (f mb)) ->
   both s (upd_mb s id f).
 Proof.
-  intros [heap names prev sel] id f (H1 & H2 & H3 & H4 & H5 & H6) Hf.
+  intros [heap names prev sel ro] id f (H1 & H2 & H3 & H4 & H5 & H6) Hf.
   unfold both, upd_mb, with_heap, state_ok. cbn [st_heap st_names st_prev st_sel] in *.
   split; [split; [|split; [|split; [|split; [|split]]]]|]; auto.
   - intros i mb' E. destruct (Nat.eq_dec id i) as [->|Hne].
@@ -378,12 +378,17 @@ Qed.
 Lemma both_sel : forall s s1 i o, both s s1 ->
   (forall id, o = Some id -> (id < length (st_heap s1))%nat) -> both s (set_sel s1 i o).
 Proof.
-  intros s [heap names prev sel] i o ((H1 & H2 & H3 & H4 & H5 & H6) & HE) Ho.
+  intros s [heap names prev sel ro] i o ((H1 & H2 & H3 & H4 & H5 & H6) & HE) Ho.
   unfold both, set_sel, with_sel, state_ok. cbn [st_heap st_names st_prev st_sel] in *.
   split; [split; [|split; [|split; [|split; [|split]]]]|]; auto.
   intros k j E. destruct (Nat.eq_dec i k) as [->|Hne].
   - rewrite upd_nth_eq in E. destruct (nth_error sel k); [|discriminate]. cbn in E. inversion E. auto.
   - rewrite upd_nth_ne in E; eauto.
+Qed.
+
+Lemma both_ro : forall s s1 i b, both s s1 -> both s (set_ro s1 i b).
+Proof.
+  intros s [heap names prev sel ro] i b H. exact H.
 Qed.
 
 Lemma sel_valid : forall s i id, state_ok s -> sel_of s i = Some id -> (id < length (st_heap s))%nat.
@@ -393,6 +398,7 @@ Proof.
 Qed.
 
 Ltac brk H := repeat match type of H with
+  | context [if ro_of ?s ?i then _ else _] => let E := fresh "Ero" in destruct (ro_of s i) eqn:E
   | context [match lookup ?n ?l with _ => _ end] => let E := fresh "El" in destruct (lookup n l) eqn:E
   | context [match nth_error ?l ?n with _ => _ end] => let E := fresh "En" in destruct (nth_error l n) eqn:E
   | context [if Nat.eqb ?a ?b then _ else _] => let E := fresh "Eq" in destruct (Nat.eqb a b) eqn:E
@@ -408,9 +414,9 @@ Ltac insel H sid mb Hs Hm :=
 Lemma create_both : forall s n, state_ok s -> lookup n (st_names s) = None ->
   both s {| st_heap := st_heap s ++ [{| mb_name := n; mb_uv := st_prev s + 1; mb_next := 1; mb_sub := false; mb_msgs := [] |}];
             st_names := st_names s ++ [(n, length (st_heap s))];
-            st_prev := st_prev s + 1; st_sel := st_sel s |}.
+            st_prev := st_prev s + 1; st_sel := st_sel s; st_ro := st_ro s |}.
 Proof.
-  intros [heap names prev sel] n (H1 & H2 & H3 & H4 & H5 & H6) El.
+  intros [heap names prev sel ro] n (H1 & H2 & H3 & H4 & H5 & H6) El.
   unfold both, state_ok. cbn [st_heap st_names st_prev st_sel] in *.
   split; [split; [|split; [|split; [|split; [|split]]]]|].
   - intros i mb0 E. destruct (Nat.lt_ge_cases i (length heap)) as [Hlt|Hge].
@@ -436,9 +442,9 @@ Proof.
 Qed.
 
 Lemma delete_both : forall s n, state_ok s ->
-  both s {| st_heap := st_heap s; st_names := unbind n (st_names s); st_prev := st_prev s; st_sel := st_sel s |}.
+  both s {| st_heap := st_heap s; st_names := unbind n (st_names s); st_prev := st_prev s; st_sel := st_sel s; st_ro := st_ro s |}.
 Proof.
-  intros [heap names prev sel] n (H1 & H2 & H3 & H4 & H5 & H6).
+  intros [heap names prev sel ro] n (H1 & H2 & H3 & H4 & H5 & H6).
   unfold both, state_ok. cbn [st_heap st_names st_prev st_sel] in *.
   split; [split; [|split; [|split; [|split; [|split]]]]|]; auto.
   - intros n0 i Hin. apply unbind_in in Hin. apply H3. tauto.
@@ -457,9 +463,9 @@ Lemma rename_both : forall s o n id, state_ok s ->
   lookup o (st_names s) = Some id -> lookup n (st_names s) = None ->
   both s {| st_heap := update_nth id (set_name n) (st_heap s);
             st_names := unbind o (st_names s) ++ [(n, id)];
-            st_prev := st_prev s; st_sel := st_sel s |}.
+            st_prev := st_prev s; st_sel := st_sel s; st_ro := st_ro s |}.
 Proof.
-  intros [heap names prev sel] o n id (H1 & H2 & H3 & H4 & H5 & H6) Eo En.
+  intros [heap names prev sel ro] o n id (H1 & H2 & H3 & H4 & H5 & H6) Eo En.
   unfold both, state_ok. cbn [st_heap st_names st_prev st_sel] in *.
   apply lookup_in in Eo.
   split; [split; [|split; [|split; [|split; [|split]]]]|].
@@ -515,16 +521,17 @@ Proof.
     apply both_upd; auto. intros mb E. assert (mb = m) by congruence. subst mb.
     rewrite (fst_eq _ _ _ _ _ Ea). apply good_app1.
   - (* CSelect *) brk H; inversion H; subst; clear H.
-    + apply both_sel; [apply both_refl; auto|]. intros id E. inversion E; subst. eapply nth_some_lt; eauto.
+    + apply both_ro. apply both_sel; [apply both_refl; auto|]. intros id E. inversion E; subst. eapply nth_some_lt; eauto.
     + apply both_sel; [apply both_refl; auto|]. discriminate.
     + apply both_sel; [apply both_refl; auto|]. discriminate.
   - (* CUnselect *) insel H sid mb Hs Hm; [apply both_refl; auto|].
     inversion H; subst. apply both_sel; [apply both_refl; auto|]. discriminate.
   - (* CClose *) insel H sid mb Hs Hm; [apply both_refl; auto|].
-    inversion H; subst. apply both_sel; [|discriminate].
+    brk H; inversion H; subst; [apply both_sel; [apply both_refl; auto|discriminate]|].
+    apply both_sel; [|discriminate].
     apply both_upd; auto. intros mb0 E. unfold expunge_mb. apply good_set_msgs. apply derived_filter.
   - (* CStore *) insel H sid mb Hs Hm; [apply both_refl; auto|].
-    inversion H; subst. apply both_upd; auto. intros mb0 E. assert (mb0 = mb) by congruence. subst mb0.
+    brk H; inversion H; subst; [apply both_refl; auto|]. apply both_upd; auto. intros mb0 E. assert (mb0 = mb) by congruence. subst mb0.
     apply good_set_msgs. apply derived_map_addr. apply same_store.
   - (* CCopy *) insel H sid mb Hs Hm; [apply both_refl; auto|].
     brk H; inversion H; subst; clear H; try (apply both_refl; auto).
@@ -541,7 +548,7 @@ Proof.
     assert (mb0 = mb) by congruence. subst mb0.
     apply good_set_msgs. unfold numbered. apply derived_numfilter.
   - (* CExpunge *) insel H sid mb Hs Hm; [apply both_refl; auto|].
-    inversion H; subst. apply both_upd; auto. intros mb0 E. unfold expunge_mb.
+    brk H; inversion H; subst; [apply both_refl; auto|]. apply both_upd; auto. intros mb0 E. unfold expunge_mb.
     apply good_set_msgs. apply derived_filter.
   - (* CSearch *) insel H sid mb Hs Hm; [apply both_refl; auto|].
     inversion H; subst. apply both_refl; auto.
@@ -549,7 +556,7 @@ Proof.
     brk H; inversion H; subst; clear H.
     apply both_upd; auto. intros mb0 E. assert (mb0 = mb) by congruence. subst mb0.
     apply good_set_msgs. apply derived_map_addr.
-    intros m. destruct (existsb _ _); [apply same_seen | apply same_msg_refl].
+    intros m. destruct (_ && _); [apply same_seen | apply same_msg_refl].
   - (* CNoop *) inversion H; subst. apply both_refl; auto.
 Qed.
 
@@ -599,13 +606,13 @@ Proof.
   - brk H; inversion H; subst; clear H; left; reflexivity.
   - brk H; inversion H; subst; clear H; left; reflexivity.
   - brk H; inversion H; subst; clear H; left; reflexivity.
-  - insel H sid mb Hs Hm; [left; reflexivity|]. inversion H; subst. left; reflexivity.
-  - insel H sid mb Hs Hm; [left; reflexivity|]. inversion H; subst. left; reflexivity.
-  - insel H sid mb Hs Hm; [left; reflexivity|]. inversion H; subst. left; reflexivity.
   - insel H sid mb Hs Hm; [left; reflexivity|]. brk H; inversion H; subst; clear H; left; reflexivity.
   - insel H sid mb Hs Hm; [left; reflexivity|]. brk H; inversion H; subst; clear H; left; reflexivity.
-  - insel H sid mb Hs Hm; [left; reflexivity|]. inversion H; subst. left; reflexivity.
-  - insel H sid mb Hs Hm; [left; reflexivity|]. inversion H; subst. left; reflexivity.
+  - insel H sid mb Hs Hm; [left; reflexivity|]. brk H; inversion H; subst; clear H; left; reflexivity.
+  - insel H sid mb Hs Hm; [left; reflexivity|]. brk H; inversion H; subst; clear H; left; reflexivity.
+  - insel H sid mb Hs Hm; [left; reflexivity|]. brk H; inversion H; subst; clear H; left; reflexivity.
+  - insel H sid mb Hs Hm; [left; reflexivity|]. brk H; inversion H; subst; clear H; left; reflexivity.
+  - insel H sid mb Hs Hm; [left; reflexivity|]. brk H; inversion H; subst; clear H; left; reflexivity.
   - insel H sid mb Hs Hm; [left; reflexivity|]. brk H; inversion H; subst; clear H; left; reflexivity.
   - inversion H; subst. left; reflexivity.
 Qed.
@@ -802,18 +809,18 @@ Proof.
   - inversion H; subst. reflexivity.
   - brk H; inversion H; subst; clear H; reflexivity.
   - brk H; inversion H; subst; clear H; try reflexivity; exfalso; apply Hc; reflexivity.
-  - destruct s as [heap names prev sel].
+  - destruct s as [heap names prev sel ro].
     brk H; inversion H; subst; clear H; try reflexivity; exfalso; apply Hc; reflexivity.
-  - insel H sid mb Hs Hm; [reflexivity|]. inversion H; subst. exfalso; apply Hc; reflexivity.
-  - insel H sid mb Hs Hm; [reflexivity|]. inversion H; subst. exfalso; apply Hc; reflexivity.
-  - insel H sid mb Hs Hm; [reflexivity|]. inversion H; subst. exfalso; apply Hc; reflexivity.
+  - insel H sid mb Hs Hm; [reflexivity|]. brk H; inversion H; subst; clear H; try reflexivity; exfalso; apply Hc; reflexivity.
+  - insel H sid mb Hs Hm; [reflexivity|]. brk H; inversion H; subst; clear H; try reflexivity; exfalso; apply Hc; reflexivity.
+  - insel H sid mb Hs Hm; [reflexivity|]. brk H; inversion H; subst; clear H; try reflexivity; exfalso; apply Hc; reflexivity.
   - insel H sid mb Hs Hm; [reflexivity|].
     brk H; inversion H; subst; clear H; try reflexivity.
     exfalso; apply Hc. destruct (map snd (select_addressed uid set mb)); reflexivity.
   - insel H sid mb Hs Hm; [reflexivity|].
     brk H; inversion H; subst; clear H; try reflexivity.
     exfalso; apply Hc. reflexivity.
-  - insel H sid mb Hs Hm; [reflexivity|]. inversion H; subst. exfalso; apply Hc; reflexivity.
+  - insel H sid mb Hs Hm; [reflexivity|]. brk H; inversion H; subst; clear H; try reflexivity; exfalso; apply Hc; reflexivity.
   - insel H sid mb Hs Hm; [reflexivity|]. inversion H; subst. reflexivity.
   - insel H sid mb Hs Hm; [reflexivity|].
     brk H; inversion H; subst; clear H. exfalso; apply Hc; reflexivity.
@@ -857,9 +864,9 @@ Proof.
     rewrite (fst_eq _ _ _ _ _ Ea). apply fit_app1; auto.
   - brk H; inversion H; subst; clear H; auto.
   - insel H sid mb Hs Hm; auto. inversion H; subst. auto.
-  - insel H sid mb Hs Hm; auto. inversion H; subst. cbn [st_heap upd_mb with_heap set_sel with_sel].
+  - insel H sid mb Hs Hm; auto. brk H; inversion H; subst; clear H; [exact F|]. cbn [st_heap upd_mb with_heap set_sel with_sel].
     apply heap_fit_upd; auto. intros mb0 E Fm. unfold expunge_mb. apply fit_set_msgs; auto. apply derived_filter.
-  - insel H sid mb Hs Hm; auto. inversion H; subst. cbn [st_heap upd_mb with_heap].
+  - insel H sid mb Hs Hm; auto. brk H; inversion H; subst; clear H; [exact F|]. cbn [st_heap upd_mb with_heap].
     apply heap_fit_upd; auto. intros mb0 E Fm. assert (mb0 = mb) by congruence. subst mb0.
     apply fit_set_msgs; auto. apply derived_map_addr. apply same_store.
   - insel H sid mb Hs Hm; auto.
@@ -876,14 +883,14 @@ Proof.
       intros m1 Hin. apply select_addressed_in in Hin. apply (F _ _ Hm); auto.
     + intros mb0 E Fm. apply fit_set_msgs; [unfold numbered; apply derived_numfilter|].
       apply (F _ _ Hm).
-  - insel H sid mb Hs Hm; auto. inversion H; subst. cbn [st_heap upd_mb with_heap].
+  - insel H sid mb Hs Hm; auto. brk H; inversion H; subst; clear H; [exact F|]. cbn [st_heap upd_mb with_heap].
     apply heap_fit_upd; auto. intros mb0 E Fm. unfold expunge_mb. apply fit_set_msgs; auto. apply derived_filter.
   - insel H sid mb Hs Hm; auto. inversion H; subst. auto.
   - insel H sid mb Hs Hm; auto.
     brk H; inversion H; subst; clear H. cbn [st_heap upd_mb with_heap].
     apply heap_fit_upd; auto. intros mb0 E Fm. assert (mb0 = mb) by congruence. subst mb0.
     apply fit_set_msgs; auto. apply derived_map_addr.
-    intros m. destruct (existsb _ _); [apply same_seen | apply same_msg_refl].
+    intros m. destruct (_ && _); [apply same_seen | apply same_msg_refl].
   - inversion H; subst; auto.
 Qed.
 
@@ -903,13 +910,13 @@ Proof.
   - exact W.
   - assert (Hin' : In (snd sm) (map snd (select_addressed uid set
         (set_msgs (map_addressed uid set mb
-           (if existsb (fun p : section * bytes => negb (sc_peek (fst p))) (fo_sections o)
+           (if negb (ro_of s k) && existsb (fun p : section * bytes => negb (sc_peek (fst p))) (fo_sections o)
             then mark_seen else fun m : mmsg => m)) mb)))) by (apply in_map; exact Hin).
     apply select_addressed_in in Hin'. cbn [set_msgs mb_msgs] in Hin'.
     destruct (derived_map_addr uid set mb
-      (if existsb (fun p : section * bytes => negb (sc_peek (fst p))) (fo_sections o)
+      (if negb (ro_of s k) && existsb (fun p : section * bytes => negb (sc_peek (fst p))) (fo_sections o)
             then mark_seen else fun m : mmsg => m)) as (_ & D).
-    { intros m. destruct (existsb _ _); [apply same_seen | apply same_msg_refl]. }
+    { intros m. destruct (_ && _); [apply same_seen | apply same_msg_refl]. }
     destruct (D _ Hin') as (m0 & Hm0 & (_ & Eb & _)). rewrite <- Eb.
     apply (F _ _ Hm); auto.
 Qed.
